@@ -724,4 +724,8 @@ impl nervusdb_query::WriteableGraph for WriteTxn<'_> {
     fn staged_created_nodes_with_labels(&self) -> Vec<(InternalNodeId, Vec<String>)> {
         self.inner.staged_created_nodes_with_labels()
     }
+
+    fn staged_edges(&self, node: InternalNodeId) -> Vec<EdgeKey> {
+        self.inner.staged_edges(node)
+    }
 }
